@@ -33,9 +33,14 @@ type vfC17Case struct {
 	Interval time.Duration
 	Backoff  bool
 	Mode     string // silence | restore | hostile
+	Drop     int    // silence mode: 1+index of the one emission of the target that is lost before the silence (0: none)
 }
 
 func (c vfC17Case) String() string {
+	if c.Drop > 0 {
+		return fmt.Sprintf("%s/%s/cut%d/I=%v/backoff=%v/%s/drop%d", c.V.Name, c.Target, c.Cut, c.Interval, c.Backoff, c.Mode, c.Drop-1)
+	}
+
 	return fmt.Sprintf("%s/%s/cut%d/I=%v/backoff=%v/%s", c.V.Name, c.Target, c.Cut, c.Interval, c.Backoff, c.Mode)
 }
 
@@ -149,6 +154,13 @@ func vfC17Silence(res *vfResult, c vfC17Case) {
 			mu.Lock()
 			dark := silent && !release
 			mu.Unlock()
+			if c.Drop > 0 && w.Idx == c.Drop-1 {
+				// one datagram of the target's flight is lost: the peer acknowledges (DTLS 1.3) or simply waits for
+				// the rest, and the flight as a whole stays unanswered when the silence begins
+				res.Count("silence_with_one_datagram_of_the_flight_lost", 1)
+
+				return
+			}
 			if !dark { // once the silence began the target's retransmissions are only observed, not delivered
 				n.Deliver(w.Dst, w.Data, from)
 			}
@@ -500,6 +512,44 @@ func vfC17Silence(res *vfResult, c vfC17Case) {
 			}
 		}
 	default:
+		if c.Drop > 0 {
+			// The last transmission before the silence may itself have been a timer retransmission (the lost datagram
+			// kept the peer from answering), so the grid's origin is not known. What the law still fixes: the endpoint
+			// awaits a reply, so it keeps retransmitting until the horizon, every gap is at least the configured interval
+			// and at most 60 s, and a gap is the previous one or its double (capped).
+			bad := ""
+			prev := t0
+			gap := time.Duration(0)
+			for i, b := range postB {
+				g := b.At - prev
+				switch {
+				case i > 0 && g != gap && g != 2*gap && !(g == 60*time.Second && 2*gap > g):
+					bad = fmt.Sprintf("gap before retransmission %d (at %v) is %v, the one before it was %v", i+1, b.At, g, gap)
+				case i > 0 && (g < c.Interval || g > 60*time.Second):
+					bad = fmt.Sprintf("gap before retransmission %d (at %v) is %v, outside [%v, 60s]", i+1, b.At, g, c.Interval)
+				}
+				if bad != "" {
+					break
+				}
+				prev, gap = b.At, g
+			}
+			if bad == "" && (len(postB) == 0 || horizon-postB[len(postB)-1].At > 61*time.Second) {
+				last := "none at all"
+				if len(postB) > 0 {
+					last = "the last one at " + postB[len(postB)-1].At.String()
+				}
+				bad = fmt.Sprintf("the endpoint still awaits a reply but stopped retransmitting (%d retransmissions in %v of silence, %s)", len(postB), horizon-sa, last)
+			}
+			if bad != "" {
+				res.Violate("C17:timer-law:"+sigBase+":after-partial-loss", c.String()+": "+bad+"; observed "+fmt.Sprint(times(postB)),
+					map[string]any{"case": c.String(), "bursts": postB})
+			} else {
+				res.Count("timer_law_after_partial_loss", 1)
+				res.Count("retransmissions_checked", int64(len(postB)))
+			}
+
+			break
+		}
 		// every burst on the grid, every grid point has a burst of the flight's size
 		bad := ""
 		if len(postB) != len(grid) {
@@ -845,6 +895,18 @@ func TestVF_C17(t *testing.T) {
 					cases = append(cases, vfC17Case{V: v, Target: tgt, Cut: cut, Interval: time.Second, Backoff: true, Mode: "restore-dup"})
 					cases = append(cases, vfC17Case{V: v, Target: tgt, Cut: cut, Interval: time.Second, Backoff: true, Mode: "stale-only"})
 					cases = append(cases, vfC17Case{V: v, Target: tgt, Cut: cut, Interval: time.Second, Backoff: true, Mode: "restore-partial"})
+				}
+			}
+			// a multi-datagram flight of which one datagram is lost, the peer's reaction (a partial ACK in DTLS 1.3)
+			// delivered, then silence: the flight is still unanswered, the timer law applies unchanged
+			if v.Cfg.MTU > 0 && v.Cfg.Is13() {
+				for cut := 1; cut <= maxCut; cut++ {
+					for drop := 1; drop <= 4; drop++ {
+						if !vfThorough() && (cut+drop)%2 != 0 {
+							continue
+						}
+						cases = append(cases, vfC17Case{V: v, Target: tgt, Cut: cut, Interval: time.Second, Backoff: true, Mode: "silence", Drop: drop + 1})
+					}
 				}
 			}
 			cases = append(cases, vfC17Case{V: v, Target: tgt, Interval: time.Second, Backoff: true, Mode: "hostile"})
